@@ -488,6 +488,19 @@ fn gen(rng: &mut Rng, depth: usize, sc: &[M]) -> M {
         if rng.chance(1, 40) {
             return M::Fail;
         }
+        // half of the scalars are random rather than boundary values
+        if rng.chance(1, 2) {
+            let r = rng.next();
+            return match rng.below(16) {
+                0 => M::I8(r as i8), 1 => M::I16(r as i16), 2 => M::I32(r as i32), 3 => M::I64(r as i64), 4 => M::I128(rng.i128() >> rng.below(120)),
+                5 => M::U8(r as u8), 6 => M::U16(r as u16), 7 => M::U32(r as u32), 8 => M::U64(r >> rng.below(60)), 9 => M::U128((rng.i128() as u128) >> rng.below(127)),
+                10 => M::F32(f32::from_bits(r as u32)), 11 => M::F64(f64::from_bits(r)),
+                12 => M::Char(char::from_u32((r % 0x11_0000) as u32).unwrap_or('x')),
+                13 => match crate::pools::random_value(rng, "String") { Value::String(s) => M::Str(s), _ => M::Unit },
+                14 => M::Bytes((0..rng.below(600)).map(|i| (r >> (i % 57)) as u8).collect()),
+                _ => M::Bool(r & 1 == 1),
+            };
+        }
         return sc[rng.below(sc.len())].clone();
     }
     let d = depth - 1;
